@@ -104,7 +104,7 @@ func (op *seriesFiltering) findSeriesIDsByExpr(condition stmt.Expr) (tag.KeyID, 
 
 // getTagKeyID returns the tag key id by tag key
 func (op *seriesFiltering) getSeriesIDsByExpr(expr stmt.Expr) (tag.KeyID, *roaring.Bitmap, error) {
-	tagValues, ok := op.executeCtx.StorageExecuteCtx.TagFilterResult[expr.Rewrite()]
+	tagValues, ok := op.executeCtx.StorageExecuteCtx.TagFilterResult[tagFilterKey(expr)]
 	if !ok {
 		return 0, nil, fmt.Errorf("%w, expr: %s", constants.ErrTagValueFilterResultNotFound, expr.Rewrite())
 	}
